@@ -5,6 +5,7 @@ import glob, os, runpy
 
 ENGINES = {}
 PROPS = {}
+_SECOND = {}
 for _f in sorted(glob.glob(os.path.join(os.path.dirname(os.path.abspath(__file__)), "props.d", "*.py"))):
     _ns = runpy.run_path(_f)
     ENGINES.update(_ns.get("ENGINES", {}))
@@ -12,3 +13,6 @@ for _f in sorted(glob.glob(os.path.join(os.path.dirname(os.path.abspath(__file__
         if _k in PROPS:
             raise SystemExit("property %s registered twice (%s)" % (_k, _f))
         PROPS[_k] = _v
+    _SECOND.update(_ns.get("SECOND", {}))
+for _k, _v in _SECOND.items():
+    PROPS[_k]["second"] = _v  # ./check <id> runs this engine as a second pass (see check: --engine)
